@@ -69,15 +69,21 @@ func VerifH_C10_FirstMatch_S9() {
 		ru := &rule{}
 		sp.hasMatcher = verifrt.Bool("r.hasmatcher")
 		if sp.hasMatcher {
-			m := domainmatcher.NewMixMatcher()
-			l := verifrt.BytesN("r.label", 1)
-			verifrt.Assume(!('A' <= l[0] && l[0] <= 'Z') && l[0] != '.' && l[0] != ':' && l[0] != 0)
-			rule := append([]byte("domain:"), l...)
-			verifrt.Assume(m.Add(rule) == nil)
-			ru.matcher = m
+			if i > 0 && specs[i-1].hasMatcher && verifrt.Bool("r.sharedset") {
+				// consecutive rules may reference the SAME domain set (same matcher object)
+				ru.matcher = rules[i-1].matcher
+				sp.matches = specs[i-1].matches
+			} else {
+				m := domainmatcher.NewMixMatcher()
+				l := verifrt.BytesN("r.label", 1)
+				verifrt.Assume(!('A' <= l[0] && l[0] <= 'Z') && l[0] != '.' && l[0] != ':' && l[0] != 0)
+				rule := append([]byte("domain:"), l...)
+				verifrt.Assume(m.Add(rule) == nil)
+				ru.matcher = m
+				sp.matches = verifrt.EqBytes(l, tld)
+			}
 			sp.reverse = verifrt.Bool("r.reverse")
 			ru.reverse = sp.reverse
-			sp.matches = verifrt.EqBytes(l, tld)
 		}
 		sp.up = -1
 		switch k {
